@@ -379,6 +379,7 @@ def adapt (E : Env) : Kind → Native → Except Raise (Option Native)
     | x => adaptTok E true signed x
   | .boolean tru fls trueSyn falseSyn, x =>
     match x with
+    | .none => .ok (some .none)                                     -- `if value is None: return None`
     | .str s =>
       if s = tru || trueSyn.contains s then .ok (some (.bool true))
       else if s = fls || falseSyn.contains s then .ok (some (.bool false))
@@ -484,5 +485,11 @@ def setScalar (E : Env) (k : Kind) (obj : Native) : Except Raise SetResult :=
     match uOfFailed E.T obj with
     | .error e => .error e
     | .ok u => .ok ⟨⟨obj, .none, u⟩, false, [false]⟩
+
+/-- `norm k text` = the text left in `.u` by `K().set(text)` (the text itself if `set` raised) -/
+def norm (E : Env) (k : Kind) (s : Str) : Str :=
+  match setScalar E k (.str s) with
+  | .ok r => r.st.u
+  | .error _ => s
 
 end Flatland.Scalar
